@@ -16,7 +16,7 @@ func TestMain(m *testing.M) { vk.Main(m) }
 // called with every argument in Args (several calls catch state kept between calls).
 type Scenario struct {
 	N      int     `json:"n"`
-	Family string  `json:"family"` // "trace" | "affine" | "table" | "anynil" | "reentrant" | "panics" | "mixed"
+	Family string  `json:"family"` // "trace" | "affine" | "table" | "anynil" | "reentrant" | "panics"
 	A      []int   `json:"a"`      // affine: x -> (A*x+B) mod P ; trace: tag index
 	B      []int   `json:"b"`
 	Table  [][]int `json:"table,omitempty"` // table family: f_i(x) = Table[i][x mod M]
@@ -28,16 +28,13 @@ const tableM = 7
 
 func gen(t *rapid.T) Scenario {
 	sc := Scenario{N: rapid.IntRange(2, 20).Draw(t, "n")}
-	sc.Family = rapid.SampledFrom([]string{"trace", "affine", "table", "anynil", "reentrant", "panics", "mixed", "mixed"}).Draw(t, "family")
+	sc.Family = rapid.SampledFrom([]string{"trace", "affine", "table", "anynil", "reentrant", "panics"}).Draw(t, "family")
 	sc.Args = rapid.SliceOfN(rapid.IntRange(0, prime-1), 1, 3).Draw(t, "args")
 	if rapid.IntRange(0, 2).Draw(t, "repeatArg") == 0 {
 		sc.Args = append(sc.Args, sc.Args[len(sc.Args)-1]) // the same argument twice in a row
 	}
 	for i := 0; i < sc.N; i++ {
 		switch sc.Family {
-		case "mixed":
-			sc.A = append(sc.A, rapid.IntRange(2, 9).Draw(t, "a"))
-			sc.B = append(sc.B, rapid.IntRange(1, 9).Draw(t, "b"))
 		case "trace", "anynil", "reentrant", "panics":
 			sc.A = append(sc.A, rapid.IntRange(0, 25).Draw(t, "tag"))
 		case "affine":
@@ -120,61 +117,6 @@ func Run(sc Scenario) string {
 			for i, c := range calls {
 				if c != 2*(k+1) {
 					return fmt.Sprintf("call %d: f_%d was applied %d times in total, want %d (outer and re-entrant inner call)", k, i+1, c, 2*(k+1))
-				}
-			}
-		}
-	case "mixed":
-		// stages of different types (int->int, int->string, string->int, string->string) in the three fixed type patterns of
-		// mixed_gen.go: every stage depends on its position, so any regrouping of stages of equal signature shows
-		for _, pat := range []string{"A", "B", "C"} {
-			kinds := mixedKinds[pat+strconv.Itoa(sc.N)]
-			st := mixedStages{ii: make([]func(int) int, sc.N), is: make([]func(int) string, sc.N), si: make([]func(string) int, sc.N), ss: make([]func(string) string, sc.N)}
-			ref := make([]func(any) any, sc.N)
-			cnt := make([]int, sc.N)
-			for i := range kinds {
-				a, b := sc.A[i]+i, sc.B[i]
-				switch kinds[i] {
-				case "ii":
-					f := func(x int) int { cnt[i]++; return (a*x + b + i) % 1000003 }
-					st.ii[i], ref[i] = f, func(x any) any { return f(x.(int)) }
-				case "is":
-					f := func(x int) string { cnt[i]++; return strconv.Itoa(x*a+b) + "#" + strconv.Itoa(i) }
-					st.is[i], ref[i] = f, func(x any) any { return f(x.(int)) }
-				case "si":
-					f := func(x string) int {
-						cnt[i]++
-						h := i + b
-						for _, c := range []byte(x) {
-							h = (h*31 + int(c)) % 1000003
-						}
-						return h
-					}
-					st.si[i], ref[i] = f, func(x any) any { return f(x.(string)) }
-				default:
-					f := func(x string) string { cnt[i]++; return x + "<" + strconv.Itoa(i) + ":" + strconv.Itoa(a) + ">" }
-					st.ss[i], ref[i] = f, func(x any) any { return f(x.(string)) }
-				}
-			}
-			h := mixedBuild[pat+strconv.Itoa(sc.N)](st)
-			for k, arg := range sc.Args {
-				for i := range cnt {
-					cnt[i] = 0
-				}
-				var want any = arg
-				for i := range ref {
-					want = ref[i](want)
-				}
-				for i := range cnt {
-					cnt[i] = 0
-				}
-				got := h(arg)
-				if got != want {
-					return fmt.Sprintf("call %d: Pipe%d over stages of the types %v (pattern %s) applied to %d = %v, the left-to-right fold gives %v", k, sc.N, kinds, pat, arg, got, want)
-				}
-				for i, c := range cnt {
-					if c != 1 {
-						return fmt.Sprintf("call %d: Pipe%d (type pattern %s): f_%d was applied %d times", k, sc.N, pat, i+1, c)
-					}
 				}
 			}
 		}
@@ -308,7 +250,7 @@ func nontrivial(sc Scenario) bool {
 	for i := 0; i < sc.N; i++ {
 		var k string
 		switch sc.Family {
-		case "trace", "anynil", "reentrant", "panics", "mixed":
+		case "trace", "anynil", "reentrant", "panics":
 			k = "t" // trace tags carry the position, always distinct
 			k += strconv.Itoa(i)
 		case "affine":
@@ -397,7 +339,7 @@ func FuzzC20(f *testing.F) {
 // TestC20Each covers every N with every family deterministically (no N can be missed by chance).
 func TestC20Each(t *testing.T) {
 	for n := 2; n <= 20; n++ {
-		for _, fam := range []string{"trace", "affine", "table", "anynil", "reentrant", "panics", "mixed"} {
+		for _, fam := range []string{"trace", "affine", "table", "anynil", "reentrant", "panics"} {
 			sc := Scenario{N: n, Family: fam, Args: []int{3, 999983, 4, 4}}
 			for i := 0; i < n; i++ {
 				sc.A = append(sc.A, 2+i)
